@@ -726,3 +726,172 @@ func returnedValue(ret *ssa.Return, i int) ssa.Value {
 	}
 	return r
 }
+
+// ---- C20.EVERYISSUE ----
+
+func init() {
+	register(&Rule{ID: "C20.EVERYISSUE", Min: 3, Doc: "every issue in the output of a tool is turned into a diagnostic: the loops that report issues stop early only with a fatal error, and what a one-issue parser leaves over is parsed again", Run: runC20EveryIssue})
+}
+
+func runC20EveryIssue(c *Ctx) {
+	p := c.P
+	for _, rule := range []string{"RuleShellcheck", "RulePyflakes"} {
+		// the callbacks that receive the output of the tool: function literals (output, error) in methods of the rule
+		var cbs []*ssa.Function
+		for _, fn := range p.Funcs {
+			par := fn.Parent()
+			if par == nil || par.Signature.Recv() == nil || pointeeName(par.Signature.Recv().Type()) != rule {
+				continue
+			}
+			if len(fn.Params) == 2 && typeStr(fn.Params[0].Type()) == "[]byte" && typeStr(fn.Params[1].Type()) == "error" {
+				cbs = append(cbs, fn)
+			}
+		}
+		if len(cbs) == 0 {
+			c.anchorMissing("callback of " + rule)
+			continue
+		}
+		scope := map[*ssa.Function]bool{}
+		for fn := range p.reachable(cbs...) {
+			if inPkg(fn, p.SPkg) && fn.Blocks != nil {
+				scope[fn] = true
+			}
+		}
+		// functions of the scope from which a diagnostic is emitted
+		reports := map[*ssa.Function]bool{}
+		for fn := range scope {
+			for g := range p.reachable(fn) {
+				if scope[g] && len(findCalls(g, "(*RuleBase).Errorf"))+len(findCalls(g, "(*RuleBase).Error")) > 0 {
+					reports[fn] = true
+				}
+			}
+		}
+		var fns []*ssa.Function
+		for fn := range scope {
+			if reports[fn] {
+				fns = append(fns, fn)
+			}
+		}
+		sort.Slice(fns, func(i, j int) bool { return FuncName(fns[i]) < FuncName(fns[j]) })
+		nLoops := 0
+		for _, fn := range fns {
+			var reporting []ssa.CallInstruction
+			eachInstr(fn, func(_ *ssa.BasicBlock, _ int, in ssa.Instruction) {
+				call, ok := in.(ssa.CallInstruction)
+				if !ok {
+					return
+				}
+				g := staticCallee(call.Common())
+				if g == nil {
+					return
+				}
+				switch n := FuncName(g); {
+				case n == "(*RuleBase).Errorf" || n == "(*RuleBase).Error":
+					reporting = append(reporting, call)
+				case scope[g] && reports[g] && g != fn:
+					reporting = append(reporting, call)
+				}
+			})
+			// (b) the loops in which issues are reported
+			done := map[*ssa.BasicBlock]bool{}
+			for _, e := range reporting {
+				for _, h := range loopHeaders(fn) {
+					if done[h] || !h.Dominates(e.Block()) {
+						continue
+					}
+					body := naturalLoop(h)
+					if !body[e.Block()] {
+						// behind the regular end of the loop?
+						behind := false
+						for _, s := range h.Succs {
+							if !body[s] && (s == e.Block() || s.Dominates(e.Block())) {
+								behind = true
+							}
+						}
+						if behind {
+							continue
+						}
+					}
+					done[h] = true
+					nLoops++
+					construct := fmt.Sprintf("%s|loop over the issues#%d", FuncName(fn), len(done))
+					var bad []string
+					for _, b := range fn.Blocks {
+						if !body[b] || b == h {
+							continue
+						}
+						for _, s := range b.Succs {
+							if body[s] {
+								continue
+							}
+							switch last := s.Instrs[len(s.Instrs)-1].(type) {
+							case *ssa.Panic:
+								continue
+							case *ssa.Return:
+								if n := len(last.Results); n > 0 && typeStr(last.Results[n-1].Type()) == "error" && !isNilConst(returnedValue(last, n-1)) {
+									continue // stops with a fatal error
+								}
+							}
+							bad = append(bad, "left at "+p.Pos(branchPos(b))+" without an error")
+						}
+					}
+					sort.Strings(bad)
+					if len(bad) == 0 {
+						c.ok(construct, blockPos(h), "the loop is left before its end only by returning an error")
+					} else {
+						c.bad(construct, blockPos(h), "the loop in which issues of the tool are reported is "+strings.Join(bad, "; ")+": the issues behind that point are dropped silently")
+					}
+				}
+			}
+			// (c) a parser of one issue that hands back the rest of the output is applied to that rest again
+			for _, e := range reporting {
+				cv, ok := e.(*ssa.Call)
+				if !ok {
+					continue
+				}
+				g := staticCallee(&cv.Call)
+				if g == nil || !scope[g] {
+					continue
+				}
+				res := g.Signature.Results()
+				ri := -1
+				for i := 0; i < res.Len(); i++ {
+					if typeStr(res.At(i).Type()) == "[]byte" {
+						ri = i
+					}
+				}
+				ai := -1
+				for i, a := range cv.Call.Args {
+					if typeStr(a.Type()) == "[]byte" {
+						ai = i
+					}
+				}
+				if ri < 0 || ai < 0 {
+					continue
+				}
+				construct := FuncName(fn) + "|rest of the output after " + g.Name()
+				fedBack := false
+				for _, lf := range phiLeaves(cv.Call.Args[ai]) {
+					switch x := lf.(type) {
+					case *ssa.Extract:
+						if x.Tuple == ssa.Value(cv) && x.Index == ri {
+							fedBack = true
+						}
+					case *ssa.Call:
+						if x == cv && res.Len() == 1 {
+							fedBack = true
+						}
+					}
+				}
+				if fedBack {
+					c.ok(construct, cv.Pos(), "what the parser leaves over is handed to it again")
+				} else {
+					c.bad(construct, cv.Pos(), "the output that "+g.Name()+" hands back after one issue is not parsed again: only the first issue of a script becomes a diagnostic")
+				}
+			}
+		}
+		if nLoops == 0 {
+			c.bad("(*"+rule+")|loop over the issues", cbs[0].Pos(), "no loop reports the issues of the tool: at most one issue per script can become a diagnostic")
+		}
+	}
+}
